@@ -15,7 +15,7 @@ import os, sys, json, glob, random, re, collections, hashlib
 import vlib, progen, langlib
 
 INT64_MAX = progen.INT64_MAX
-FUEL = 60000
+FUEL = 5000
 MARK_T, MARK_A, MARK_R = b'#T', b'#A ', b'#R'
 
 
@@ -341,7 +341,8 @@ def split_a_output(out):
 # ------------------------------------------------------------------------------------------ real nanoc, verbose
 def run_nanoc_verbose(b, src_path, out_path, workdir, timeout=40):
     env = dict(os.environ, TMPDIR=workdir)
-    rc, o, e = langlib.run_cmd([b.bin('nanoc'), src_path, '-o', out_path, '--verbose'], timeout, env)
+    # cwd = the scratch directory: nanoc drops obj/nano_modules/... into its working directory
+    rc, o, e = langlib.run_cmd([b.bin('nanoc'), src_path, '-o', out_path, '--verbose'], timeout, env, cwd=workdir)
     return rc, o, e
 
 
@@ -622,6 +623,11 @@ def run_real(b, cases, tag, want_native=True):
             sp = os.path.join(d, 's.nano'); open(sp, 'w').write(c.s_src)
             outp = os.path.join(d, 's.out')
             rc, o, e = run_nanoc_verbose(b, sp, outp, d, getattr(c, 'timeout', 40))
+            if rc == -9 and getattr(c, 'm_interp', {}).get('cls') != 'nofuel':
+                # the model says the evaluator terminates: a loaded machine, not a hang -- once more, generously
+                if os.path.exists(outp):
+                    os.unlink(outp)
+                rc, o, e = run_nanoc_verbose(b, sp, outp, d, 200)
             c.r_rc, c.r_stdout, c.r_stderr = rc, o, e.decode('utf-8', 'replace')
             c.r_binary = os.path.exists(outp)
             c.r_verbose = parse_verbose(o, c.order_names)
@@ -630,9 +636,9 @@ def run_real(b, cases, tag, want_native=True):
                 ap = os.path.join(d, 'a.nano'); open(ap, 'w').write(c.a_src)
                 aout = os.path.join(d, 'a.out')
                 env = dict(os.environ, TMPDIR=d)
-                rc2, o2, e2 = langlib.run_cmd([b.bin('nanoc'), ap, '-o', aout], 120, env)
+                rc2, o2, e2 = langlib.run_cmd([b.bin('nanoc'), ap, '-o', aout], 200, env, cwd=d)
                 if rc2 == 0 and os.path.exists(aout):
-                    rc3, o3, e3 = langlib.run_cmd([aout], 20)
+                    rc3, o3, e3 = langlib.run_cmd([aout], 20, cwd=d)
                     c.r_native = dict(cls='exit' if rc3 >= 0 else ('timeout' if rc3 == -9 else 'signal%d' % -rc3), rc=rc3, out=o3)
                 else:
                     log = (o2 + e2).decode('utf-8', 'replace')
